@@ -230,7 +230,10 @@ func fieldPath(path string) []string {
 	return strings.Split(path, ".")
 }
 
-func unmarshalJsonFile(path string, i interface{}) (err error) {
+// unmarshalJsonFile reads a JSON file into i. Whether the file is compressed
+// is told by the caller (the schema knows): an extension chosen by the user may
+// end with .gz without the files being compressed.
+func unmarshalJsonFile(path string, i interface{}, compressed bool) (err error) {
 	var data []byte
 	var in *os.File
 	var r io.Reader
@@ -241,7 +244,7 @@ func unmarshalJsonFile(path string, i interface{}) (err error) {
 	defer in.Close()
 
 	r = in
-	if strings.HasSuffix(path, compressedExtension) {
+	if compressed {
 		if r, err = gzip.NewReader(in); err != nil {
 			return
 		}
